@@ -3,7 +3,7 @@ From Coq Require Import List NArith ZArith Bool.
 From GoPdf.Base Require Import Bytes Res.
 From GoPdf.Gen Require Import Gen_C06 Gen_C06ccitt2d.
 From GoPdf.C06 Require Import Machine MachineProofs AHx A85 RunLen LZW Predict Chain FilterParams Conform CCITT CCITTTables CCITTProofs CCITT2D CCITTParams CCITT2DProofs CCITT2DRowProofs CCITT2DImgProofs
-  AHxProofs A85Proofs RunLenProofs LZWCodeProofs LZWBitProofs PredictProofs ChainProofs FilterParamsProofs.
+  AHxProofs A85Proofs RunLenProofs LZWCodeProofs LZWBitProofs LZWStage PredictProofs ChainProofs FilterParamsProofs.
 Import ListNotations.
 
 Definition wf (x : bytes) : Prop := Forall (fun b => (b < 256)%N) x.
@@ -107,6 +107,30 @@ Print Assumptions parse_clamps.
 Theorem lzw_rt : forall early x, wf x -> lzw_dec early (lzw_enc early x) = Ok x.
 Proof. exact lzw_rt_proof. Qed.
 Print Assumptions lzw_rt.
+
+(* the LZW reader's output buffer (reader.go): decoded bytes wait at the start of r.output until there are
+   flushBuffer of them, while the expansion of a table code is built at the END of r.output.  The sizes are the
+   constants in the Go source (translated: lzw_flushBuffer, lzw_outputLen, lzw_maxCode).  The longest expansion a
+   4096-entry table can hold is maxCode - 256 bytes, and the buffer has room for it beside flushBuffer - 1 pending
+   bytes ... *)
+Theorem lzw_staging_room :
+  (lzw_flushBuffer - 1 + (lzw_maxCode - 256) <= lzw_outputLen)%Z /\ (0 < lzw_flushBuffer)%Z.
+Proof. exact stage_room_source. Qed.
+Print Assumptions lzw_staging_room.
+
+(* ... so for EVERY code stream e (valid or not, either EarlyChange) the staging area never reaches pending bytes:
+   the decoder of LZW.v run with the buffer bookkeeping alongside (pending count o, o + expansion length checked
+   against the buffer size at every code, high-water mark) ends with the check never failed *)
+Theorem lzw_staging_safe : forall early e,
+  sg_ok (lzw_stage_run early e) = true /\ (sg_hw (lzw_stage_run early e) <= lzw_out_len)%N.
+Proof. exact lzw_staging_safe_proof. Qed.
+Print Assumptions lzw_staging_safe.
+
+(* the decoder with the bookkeeping is the decoder of lzw_rt *)
+Theorem lzw_stage_decoder : forall early e,
+  fst (lzw_stage_dec early e) = lzw_stage_run early e /\ snd (lzw_stage_dec early e) = lzw_dec early e.
+Proof. exact lzw_stage_dec_spec. Qed.
+Print Assumptions lzw_stage_decoder.
 
 (* ---- CCITTFax, K = 0 (ITU-T T.4 one-dimensional coding); tables translated from the Go source ---- *)
 
